@@ -26,6 +26,9 @@ func (v *FnVC) checkFieldGuards(i *ssa.Store, l *Loc, val Term, p token.Pos) {
 		if ua.Callee != field {
 			continue
 		}
+		if len(ua.Props) > 0 && !hasProp(ua.Props, currentProp) {
+			continue
+		}
 		env := v.baseEnv()
 		env.cur = true
 		blk, cst := v.curBlock, v.cur
